@@ -137,8 +137,35 @@ def eqord(ctx, config="all"):
         i = imps[0]
         where = "%s:%s" % (i["file"], i["line"])
         if derived and not i["derived"]:
-            rep.violation("not-derived:%s" % tr, where, "%s for Uint is hand-written: equality/hash may disagree with the "
-                          "field-wise comparison the canonical-form invariant is designed for" % tr)
+            # a hand-written impl is fine when it does what the derive does: compare / hash the whole limb array
+            ok_hw = False
+            meth = {"core::cmp::PartialEq": "eq", "core::hash::Hash": "hash", "core::cmp::Eq": None}[tr]
+            if meth is None:
+                ok_hw = True
+            else:
+                mk = next((k for k, bb in prog.bodies.items() if bb.get("impl") == i.get("key") and bb["name"] == meth), None)
+                if mk is not None:
+                    from .facade import Slice
+                    v = prog.view(mk)
+                    whole = []
+                    for bi, t in v.calls():
+                        n = ir.callee_name(t["fn"]) or ""
+                        if n in prog.bodies and prog.bodies[n]["name"] in ("as_limbs",):
+                            continue
+                        sl = Slice(v)
+                        for a in t["args"]:
+                            sl.operand(a)
+                        uses_idx = bool(sl.index_locals) or any("index" in f for f in sl.foreign_calls)
+                        if n.endswith("::eq") or n.endswith("::hash") or n.endswith("::ne"):
+                            whole.append((sl.params, uses_idx))
+                    want_params = {1, 2} if meth == "eq" else {1}
+                    ok_hw = len(whole) == 1 and (whole[0][0] & {1, 2}) >= (want_params & {1, 2}) and not whole[0][1]
+            if ok_hw:
+                rep.ok("impl:%s" % tr, where, "hand-written, compares / hashes the whole limb arrays like the derive")
+            else:
+                rep.violation("not-derived:%s" % tr, where, "%s for Uint is hand-written and is not a comparison / hash of the "
+                              "whole limb arrays: equality/hash may disagree with the field-wise comparison the "
+                              "canonical-form invariant is designed for" % tr)
         else:
             rep.ok("impl:%s" % tr, where, "derived" if derived else "hand-written (checked below)")
     # Ord::cmp
@@ -150,8 +177,18 @@ def eqord(ctx, config="all"):
         v = prog.view(b)
         calls = [(bi, t) for bi, t in v.calls() if (ir.callee_name(t["fn"]) or "") == "crate::algorithms::cmp"]
         where = "%s:%s" % (b["file"], b["line"])
-        if len(calls) != 1:
-            rep.violation("ord-cmp-delegate", where, "Ord::cmp does not contain exactly one call to algorithms::cmp")
+        if len(calls) == 0:
+            # an own comparison loop instead of the shared kernel: which limb decides is value-level and not decided;
+            # what IS required is that both operands' limbs are read (no constant / one-sided order)
+            from .facade import Slice
+            sl = Slice(v)
+            sl.local(0)
+            if {1, 2} <= sl.params:
+                rep.ok("ord-cmp-delegate", where, "hand-written comparison reading both operands (order of limbs not decided)")
+            else:
+                rep.violation("ord-cmp-delegate", where, "Ord::cmp neither calls algorithms::cmp nor reads both operands")
+        elif len(calls) != 1:
+            rep.violation("ord-cmp-delegate", where, "Ord::cmp contains %d calls to algorithms::cmp" % len(calls))
         else:
             bi, t = calls[0]
             roots = []
